@@ -1,103 +1,161 @@
-"""Verify a set of contracts and discharge their obligations."""
+"""Verify functions under contract / lemmas, in parallel, and return JSON-able reports.
+
+One worker process per item (function or lemma); z3 objects never cross process
+boundaries.  Statuses per obligation: proved | refuted | unknown.  Statuses per
+function: ok | drift (outside subset / sidecar does not apply) | error (engine bug or
+contract error -- never a violation).
+"""
 from __future__ import annotations
 
+import multiprocessing as mp
+import os
+import re
 import time
 import traceback
 
-import z3
-
 from . import solve
-from .engine import ContractError, Engine, OutsideSubset
-from .frontend import load_program
 
 
-class FnReport:
-    def __init__(self, name):
-        self.name = name
-        self.status = "ok"  # ok | drift | error
-        self.message = ""
-        self.file = ""
-        self.line = 0
-        self.source_hash = ""
-        self.paths = 0
-        self.obligations = []  # (Obligation, Result)
-        self.notes = []
-        self.seconds = 0.0
+def strip_line(name):
+    return re.sub(r"@\d+", "", name)
 
 
-def verify_contracts(contracts, registry, field_types, program=None, names=None, verbose=False,
-                     timeout_ms=None, canary=True):
-    program = program or load_program()
-    reports = []
-    for con in contracts:
-        if con.abstract or con.trusted:
-            continue
-        if names and con.name not in names:
-            continue
-        rep = FnReport(con.name)
-        t0 = time.time()
-        eng = Engine(program, registry, field_types)
-        try:
-            fi = program.lookup(con.name)
+_STATE = {}
+
+
+def _setup():
+    if "reg" not in _STATE:
+        from contracts import all_contracts
+        from .frontend import load_program
+        reg, ftypes, lemmas, extra = all_contracts()
+        prog = load_program()
+        for path in extra:
+            prog.load_abs(path)
+        _STATE.update(reg=reg, ftypes=ftypes, lemmas=lemmas, prog=prog)
+    return _STATE
+
+
+def _model_text(model, limit=6000):
+    if model is None:
+        return ""
+    try:
+        txt = str(model)
+    except Exception:  # pragma: no cover
+        txt = "<model not printable>"
+    return txt[:limit]
+
+
+def verify_item(item, timeout_ms=None):
+    """item = 'fn:<qualified name>' or 'lemma:<name>'"""
+    import z3
+    from .engine import ContractError, Engine, OutsideSubset
+    st = _setup()
+    kind, name = item.split(":", 1)
+    rep = {"item": item, "name": name, "kind": kind, "status": "ok", "message": "", "file": "", "line": 0,
+           "source_hash": "", "paths": 0, "cover": "", "canary": "", "obligations": [], "notes": [],
+           "seconds": 0.0}
+    t0 = time.time()
+    try:
+        if kind == "lemma":
+            fn = st["lemmas"][name]
+            obs = [(f"lemma:{name}:{n}", pc, g, "lemma", 0) for n, pc, g in fn()]
+            rep["file"] = "contracts/lemmas.py"
+        else:
+            con = st["reg"].get(name)
+            if con is None:
+                raise ContractError(f"no contract named {name}")
+            fi = st["prog"].lookup(name)
             if fi is None:
-                raise OutsideSubset(f"drift: {con.name} no longer exists in the program")
-            rep.file, rep.line, rep.source_hash = fi.file, fi.line, fi.source_hash()
-            obs, info = eng.verify(con)
-            rep.paths = info["paths"]
-            rep.notes = list(eng.notes)
-            # vacuity: requires satisfiable
+                raise OutsideSubset(f"drift: {name} no longer exists in the program")
+            rep["file"], rep["line"], rep["source_hash"] = fi.file, fi.line, fi.source_hash()
+            eng = Engine(st["prog"], st["reg"], st["ftypes"])
+            obl, info = eng.verify(con)
+            rep["paths"] = info["paths"]
+            rep["notes"] = list(eng.notes)
             r, _ = solve.check_sat(eng.cover_pc, timeout_ms=2000, mbqi=False)
-            rep.cover = r
+            rep["cover"] = r
+            if r == "unsat":
+                rep["status"] = "error"
+                rep["message"] = "precondition unsatisfiable (vacuous contract)"
             if info["paths"] == 0:
-                rep.status = "error"
-                rep.message = "no path reaches the end of the function (vacuous)"
-            for ob in obs:
-                res = solve.prove(ob.pc, ob.goal, timeout_ms=timeout_ms)
-                ob.result = res
-                rep.obligations.append((ob, res))
-                if verbose or res.seconds > 2 or res.status != "proved":
-                    print(f"   {res.status:8s} {res.solver:5s} {res.seconds:6.2f}s  {ob.name}")
-        except OutsideSubset as e:
-            rep.status = "drift"
-            rep.message = str(e)
-        except ContractError as e:
-            rep.status = "error"
-            rep.message = str(e)
-        except Exception as e:  # engine bug: never a violation
-            rep.status = "error"
-            rep.message = f"{type(e).__name__}: {e}\n{traceback.format_exc()}"
-        rep.seconds = time.time() - t0
-        reports.append(rep)
-        if True:
-            print(f"{rep.status:6s} {con.name}  paths={rep.paths} obligations={len(rep.obligations)} "
-                  f"{rep.seconds:.2f}s {rep.message.splitlines()[0] if rep.message else ''}")
-    return reports
+                rep["status"] = "error"
+                rep["message"] = "no path reaches the end of the function (vacuous)"
+            obs = [(o.name, o.pc, o.goal, o.kind, o.line) for o in obl]
+            # must-fail canary: `False` must not be provable at a normal exit
+            if eng.canary_pc is not None:
+                cr = solve.prove(eng.canary_pc, z3.BoolVal(False), use_cvc5=False, timeout_ms=1500)
+                rep["canary"] = "ok" if cr.status != "proved" else "FAILED"
+                if cr.status == "proved":
+                    rep["status"] = "error"
+                    rep["message"] = "canary: `False` is provable at a normal exit (inconsistent assumptions)"
+        for oname, pc, goal, okind, line in obs:
+            res = solve.prove(pc, goal, timeout_ms=timeout_ms)
+            rep["obligations"].append({
+                "name": oname, "key": strip_line(oname), "kind": okind, "line": line, "status": res.status,
+                "solver": res.solver, "seconds": round(res.seconds, 3), "reason": res.reason,
+                "model": _model_text(res.model) if res.status == "refuted" else "",
+            })
+    except OutsideSubset as e:
+        rep["status"] = "drift"
+        rep["message"] = str(e)
+    except ContractError as e:
+        rep["status"] = "error"
+        rep["message"] = str(e)
+    except Exception as e:  # engine bug: never a violation
+        rep["status"] = "error"
+        rep["message"] = f"{type(e).__name__}: {e}\n{traceback.format_exc()}"
+    rep["seconds"] = round(time.time() - t0, 3)
+    rep["solver_stats"] = dict(solve.STATS)
+    return rep
+
+
+def _worker(args):
+    item, timeout_ms = args
+    return verify_item(item, timeout_ms)
+
+
+def run_items(items, jobs=None, timeout_ms=None):
+    jobs = jobs or min(16, os.cpu_count() or 4)
+    if jobs <= 1 or len(items) <= 1:
+        return [verify_item(i, timeout_ms) for i in items]
+    ctx = mp.get_context("fork")
+    with ctx.Pool(min(jobs, len(items)), maxtasksperchild=1) as pool:
+        return pool.map(_worker, [(i, timeout_ms) for i in items], chunksize=1)
 
 
 def main(argv=None):
     import argparse
-    import importlib
     ap = argparse.ArgumentParser()
     ap.add_argument("names", nargs="*")
     ap.add_argument("-v", action="store_true")
-    ap.add_argument("--modules", default="contracts.core")
+    ap.add_argument("-j", type=int, default=None)
     a = ap.parse_args(argv)
-    from contracts import all_contracts
-    reg, ftypes = all_contracts()
-    reps = verify_contracts(list(reg.values()), reg, ftypes, names=a.names or None, verbose=a.v)
+    st = _setup()
+    if a.names:
+        items = [n if ":" in n else ("lemma:" + n if n in st["lemmas"] else "fn:" + n) for n in a.names]
+    else:
+        items = ["fn:" + n for n, c in st["reg"].items() if not (c.abstract or c.trusted)]
+        items += ["lemma:" + n for n in st["lemmas"]]
+    t0 = time.time()
+    reps = run_items(items, a.j)
     bad = 0
+    tot = 0
     for r in reps:
-        for ob, res in r.obligations:
-            if res.status != "proved":
-                bad += 1
-                print("NOT PROVED:", ob.name, res.status, res.reason, f"line {ob.line}")
-                if res.model is not None and a.v:
-                    print(res.model)
-        if r.status != "ok":
+        print(f"{r['status']:6s} {r['item']:60s} paths={r['paths']} obligations={len(r['obligations'])} "
+              f"{r['seconds']:.2f}s {r['message'].splitlines()[0] if r['message'] else ''}")
+        if r["status"] != "ok":
             bad += 1
-            print("FUNCTION", r.name, r.status, r.message)
-    print("total obligations", sum(len(r.obligations) for r in reps), "not proved / problems", bad,
-          "solver stats", solve.STATS)
+            if a.v:
+                print(r["message"])
+        for o in r["obligations"]:
+            tot += 1
+            if a.v or o["status"] != "proved" or o["seconds"] > 3:
+                print(f"   {o['status']:8s} {o['solver']:7s} {o['seconds']:6.2f}s  {o['name']}  {o['reason']}")
+            if o["status"] != "proved":
+                bad += 1
+                if a.v and o["model"]:
+                    print(o["model"])
+    print(f"total obligations {tot}; not proved / problems {bad}; wall {time.time() - t0:.1f}s")
 
 
 if __name__ == "__main__":
